@@ -84,8 +84,18 @@ def run(tier: str) -> int:
                 continue
             disagreements += 1
             if bad is None:
-                # certificate rejected: spend the search budget on this program
+                # certificate rejected: spend the search budget on this program …
                 bad = exec_diff(case, r, cfg["search_ctx"], stats)
+            if bad is None and mode == "app" and v >= 5:
+                # … and on its instrumented neighbour (a distinct Log after every statement makes a
+                # control-flow divergence observable as an effect difference)
+                from shrink import instrument
+                neighbour = Case(d, instrument(p), v, **opts_for(v))
+                if neighbour.ok:
+                    nb = exec_diff(neighbour, r, cfg["search_ctx"] // 2, stats)
+                    if nb is not None:
+                        case, bad = neighbour, nb
+                        stats["search:found on instrumented neighbour"] += 1
             if bad is not None:
                 ctx, out = bad
                 rep.violation(f"source semantics and real TEAL disagree: {out[:400]} (validator: {verdict[:200]})",
